@@ -26,3 +26,16 @@ Theorem C14_vector_code_roundtrip_partial : forall doc score, doc < 2 ^ 32 -> sc
   dec_pair32 (enc_pair32 doc score) = (doc, score) /\ enc_pair32 doc score < 2 ^ 64.
 Proof. exact pair32_roundtrip. Qed.
 Print Assumptions C14_vector_code_roundtrip_partial.
+
+(* the specification's answer is exactly the k best: ordered by the score key, of size
+   min(k, number of admissible vectors), and every admissible vector left out is no better than
+   any vector returned (ties at the cut are the only freedom - the correspondence run tolerates
+   exactly those) *)
+Require ZV.VecSpecProof.
+Theorem C14_spec_is_top_k : forall cands except eligible k,
+  let R := spec_search cands except eligible k in
+  let A := filter (admissible except eligible) cands in
+  VecSpecProof.nondec R /\ length R = Nat.min (N.to_nat k) (length A) /\
+  (forall c, In c A -> In c R \/ forall r, In r R -> c_key r <= c_key c).
+Proof. exact VecSpecProof.spec_search_topk. Qed.
+Print Assumptions C14_spec_is_top_k.
